@@ -79,7 +79,7 @@ func CheckHashPassword(clientResp, scramble, encryptPassword []byte) bool {
 	// SHA1('password') XOR SHA1("20-bytes rnd"+SHA1(SHA1('password')))
 	// Server
 	// SHA1(client-response XOR SHA1("20-bytes rnd"+mysql.user.password))
-	if len(encryptPassword) == 0 {
+	if len(encryptPassword) == 0 || len(clientResp) != sha1.Size {
 		return false
 	}
 	hashBytes, _ := hex.DecodeString(string(encryptPassword))
@@ -88,12 +88,14 @@ func CheckHashPassword(clientResp, scramble, encryptPassword []byte) bool {
 	crypt.Write(hashBytes)
 	hash := crypt.Sum(nil)
 
+	// do not modify the caller's buffer: it is checked against other passwords afterwards
+	stage1 := make([]byte, sha1.Size)
 	for i := range clientResp {
-		clientResp[i] ^= hash[i]
+		stage1[i] = clientResp[i] ^ hash[i]
 	}
 
 	crypt.Reset()
-	crypt.Write(clientResp)
+	crypt.Write(stage1)
 	hash = crypt.Sum(nil)
 
 	return bytes.Equal(hashBytes, hash)
